@@ -525,6 +525,9 @@ void burl_append (buffer * const b, const char * const str, const size_t len, co
     else if (flags & BURL_DECODE_B64U) {
         buffer_append_base64_decode(b, str, len, BASE64_URL);
     }
+    else { /* no encoding flag, only BURL_TOLOWER and/or BURL_TOUPPER */
+        buffer_append_string_len(b, str, len);
+    }
 
     /* note: not normalizing str, which could come from arbitrary header,
      * so it is possible that alpha chars are percent-encoded upper/lowercase */
